@@ -60,7 +60,23 @@ type c10Run struct {
 
 // runC10 executes one (possibly faulted) run of variant v and collects the C10 observations.
 func runC10(c *fw.Ctx, v refmatch.Variant, w window, faults map[simnet.FaultKey]simnet.Fault, noListener bool) *c10Run {
+	return runC10Cancel(c, v, w, faults, noListener, -1)
+}
+
+// runC10Cancel: cancelAt >= 0 cancels the caller's context that long after the call started (0: before the call).
+func runC10Cancel(c *fw.Ctx, v refmatch.Variant, w window, faults map[simnet.FaultKey]simnet.Fault, noListener bool, cancelAt time.Duration) *c10Run {
 	spec := defaultSpec(v, c.Worker, w.first, w.last)
+	if cancelAt >= 0 {
+		ctx, cancel := context.WithCancel(context.Background())
+		defer cancel()
+		spec.Ctx = ctx
+		if cancelAt == 0 {
+			cancel()
+		} else {
+			tm := time.AfterFunc(cancelAt, cancel)
+			defer tm.Stop()
+		}
+	}
 	fd0 := fdCount()
 	var e *simEnv
 	var err error
@@ -125,6 +141,18 @@ func checkC10() fw.Check {
 					cases = append(cases, fw.Case{ID: id, Bubble: true, Run: func(c *fw.Ctx) { runC10Case(c, id, v, w, tier == "thorough") }})
 				}
 			}
+			// caller cancellation (the entry points that take a context): whenever the context ends - before the call,
+			// during the handshake, between two sends, inside a poll, after the destination answered - the call returns
+			// the cancellation error and no result, and the same closing discipline holds: nothing is in flight, no
+			// goroutine of the run is left behind, no handle is touched after it was closed
+			for _, v := range refmatch.Variants {
+				if v.Proto != "icmp" && v.Proto != "sack" {
+					continue
+				}
+				v := v
+				id := fmt.Sprintf("C10/cancel/%s", v.Name)
+				cases = append(cases, fw.Case{ID: id, Bubble: true, Run: func(c *fw.Ctx) { runC10CancelCase(c, id, v, tier == "thorough") }})
+			}
 			// request level: the same fault classes hitting ONE participant (a path run or an end-to-end probe) of a
 			// RunTraceroute request: the request returns an error wrapping the cause and no result, every handle of
 			// every participant is closed exactly once
@@ -183,6 +211,67 @@ func runC10Request(c *fw.Ctx, id, proto, op string, j int) {
 		c.Violate("C10", "result-and-error/request/"+op, fmt.Sprintf("%s: both a result and an error: %v", id, rerr), nil)
 	case !errors.Is(rerr, errInjected):
 		c.Violate("C10", "cause-lost/request/"+op, fmt.Sprintf("%s: the request's error does not wrap the injected cause: %v", id, rerr), nil)
+	}
+}
+
+func runC10CancelCase(c *fw.Ctx, id string, v refmatch.Variant, thorough bool) {
+	w := window{1, 8}
+	census := runC10(c, v, w, nil, false)
+	if census == nil || census.res.Err != nil {
+		c.Inconclusive(id + ": fault-free census run failed")
+		return
+	}
+	total := census.res.End.Sub(census.res.Start)
+	spec := defaultSpec(v, c.Worker, w.first, w.last)
+	ats := []time.Duration{0, time.Microsecond, spec.Delay / 2, spec.Delay, spec.Delay + time.Microsecond, 3*spec.Delay + spec.Delay/3,
+		5*spec.Delay - time.Microsecond, total / 2, total - spec.Poll/2, total - time.Microsecond}
+	if thorough {
+		for k := 0; k < 60; k++ {
+			ats = append(ats, time.Duration(c.Rng.Int63n(int64(total)+1)))
+		}
+	}
+	for _, at := range ats {
+		tag := fmt.Sprintf("%s fault=cancel#%v", id, at)
+		r := runC10Cancel(c, v, w, nil, false, at)
+		if r == nil {
+			return
+		}
+		c.Count("runs", 1)
+		if len(r.life) > 0 {
+			c.Violate("C10", "lifecycle/"+v.Name+"/cancel", fmt.Sprintf("%s: %v", tag, r.life), nil)
+		}
+		if len(r.leaked) > 0 {
+			c.Violate("C10", "goroutine-leak/"+v.Name+"/cancel", fmt.Sprintf("%s: %d repository goroutine(s) alive after the cancelled call returned", tag, len(r.leaked)), r.leaked)
+		}
+		if r.fdDiff != 0 {
+			c.Violate("C10", "fd-leak/"+v.Name+"/cancel", fmt.Sprintf("%s: open file descriptors changed by %+d", tag, r.fdDiff), nil)
+		}
+		switch {
+		case r.res.Err != nil && r.res.Run != nil:
+			c.Violate("C10", "result-and-error/"+v.Name+"/cancel", fmt.Sprintf("%s: both a result and an error: %v", tag, r.res.Err), nil)
+		case r.res.Err == nil && r.res.Run == nil:
+			c.Violate("C10", "nil-nil/"+v.Name+"/cancel", tag+": nil result and nil error", nil)
+		case r.res.Err == nil:
+			// the run completed before the cancellation could be noticed: it must be the fault-free result
+			if r.key != census.key {
+				c.Violate("C10", "partial-result/"+v.Name+"/cancel", tag+": a cancelled call returned a path different from the fault-free one", map[string]any{"result": fmtRun(r.res), "fault_free": census.key})
+			}
+			c.Count("cancel_after_completion", 1)
+		case !errors.Is(r.res.Err, context.Canceled):
+			c.Violate("C10", "cause-lost/"+v.Name+"/cancel", fmt.Sprintf("%s: returned error does not wrap the cancellation: %v", tag, r.res.Err), nil)
+		default:
+			phase := "mid"
+			switch {
+			case at == 0:
+				phase = "before-call"
+			case at < spec.Delay:
+				phase = "first-send"
+			case at > total-spec.Poll:
+				phase = "last-poll"
+			}
+			c.Nontrivial(fmt.Sprintf("%s/cancel/%s", v.Name, phase))
+			c.Count("cancellations_judged", 1)
+		}
 	}
 }
 
